@@ -162,9 +162,9 @@ O(id="C07.fd_hygiene_http", props=["C07", "C13"], entry="harness_fd_http", reach
   functions=["handle_http", "prepare_peer_socket", "set_fd_non_blocking", "configure_keepalive"],
   symbolic="which of fcntl(GET/SET), getsockname, the k-th setsockopt, connection allocation, socket allocation, connection init fails; address family",
   assumes=[], bounds="one accepted descriptor", **_lio)
-O(id="C11.accept_errors", props=["C11"], entry="harness_accept", reach=["transient_error", "accepted"],
-  functions=["accept_common"], symbolic="errno of a failing first accept (all int values) or a successful accept followed by EAGAIN",
-  assumes=[], bounds="two accept calls", **_lio)
+O(id="C11.accept_errors", props=["C11"], entry="harness_accept", reach=["transient_error", "accepted", "queued_behind_failed_attempt"],
+  functions=["accept_common"], symbolic="errno of a failing first accept (all int values) or a successful accept; whether a second connection is queued behind it",
+  assumes=[], bounds="up to two queued connection attempts, then EAGAIN", **_lio)
 O(id="C08.origin", props=["C08"], entry="harness_origin", reach=["af_unix", "v6_local"],
   functions=["is_localhost"], symbolic="first 32 bytes of the sockaddr_storage (family, port, address)",
   assumes=[], bounds="none", **_lio)
@@ -968,3 +968,13 @@ O(id="C12.frame_rules_payload125", props=["C12", "C06"], entry="harness_frame_ru
   reach=["rsv", "big_control", "ping", "close_ok", "stray_continuation", "continuation", "text", "first_fragment"],
   functions=["ws_handle_frame"], symbolic="as C12.frame_rules with payloads up to 125 bytes (every control-frame size)", assumes=["as C12.frame_rules"], bounds="payload <= 125 bytes or 126",
   **dict(_ws, unwind=127, unwindset={"strlen.0": 24, "frame_rules.0": 127, "ws_writev.0": 130, "cjet_is_byte_sequence_valid.0": 127}, timeout={"quick": 900, "thorough": 3600}))
+
+for _pl, _nm in enumerate(("null", "false", "empty_string", "empty_object", "zero")):
+    for _err in (0, 1):
+        O(id="C03.reply_%s_%s" % ("error" if _err else "result", _nm), props=["C03", "C02", "C07"], entry="harness_reply_payload_types",
+          defines=["PAYLOAD=%d" % _pl] + (["REPLY_ERROR=1"] if _err else []), functions=_RF + ["parse_json_rpc"],
+          symbolic="set value", assumes=["set-up succeeds"], bounds="skeleton: O add 's'; A set; O replies with %s = %s" % ("error" if _err else "result", _nm), **_scn_route)
+for _o in OBLIGATIONS:
+    if _o["id"] in ("C14.timeout", "C03.owner_leaves") or _o["id"].startswith("C03.route_fault_"):
+        if "C02" not in _o["props"]:
+            _o["props"].append("C02")      # they carry a C02.response_only_to_the_requester label
